@@ -237,13 +237,39 @@ func (self ValueList) iterReset() {
 func (self ValueList) IntoIter() func() (Value, bool) {
 	// Every loop owns its cursor and iterates over the elements which the list had when the loop started:
 	// a loop which is left early must not leave its position behind for the next loop over the same list.
-	values := make([]*Value, len(*self.Values))
-	for idx, element := range *self.Values {
-		elementCopy := *element
-		values[idx] = &elementCopy
+	// Just like on the VM, the loop works on a copy of the list and of everything in it.
+	return (*cloneValue(self)).(ValueList).iterNext
+}
+
+// Returns a deep copy of a value: lists, objects and options are copied together with their contents.
+func cloneValue(self Value) *Value {
+	switch self := self.(type) {
+	case ValueList:
+		values := make([]*Value, len(*self.Values))
+		for idx, element := range *self.Values {
+			values[idx] = cloneValue(*element)
+		}
+		return NewValueList(values)
+	case ValueObject:
+		fields := make(map[string]*Value)
+		for key, field := range self.FieldsInternal {
+			fields[key] = cloneValue(*field)
+		}
+		return NewValueObject(fields)
+	case ValueAnyObject:
+		fields := make(map[string]*Value)
+		for key, field := range self.FieldsInternal {
+			fields[key] = cloneValue(*field)
+		}
+		return NewValueAnyObject(fields)
+	case ValueOption:
+		if self.Inner == nil {
+			return NewNoneOption()
+		}
+		return NewValueOption(cloneValue(*self.Inner))
+	default:
+		return &self
 	}
-	zero := 0
-	return ValueList{Values: &values, currIterIdx: &zero}.iterNext
 }
 
 func NewValueList(values []*Value) *Value {
